@@ -381,9 +381,26 @@ impl Model for C02Model {
             // safety of the RP-visible tree
             return v;
         }
-        // (iii) bounded number of syncs
-        if let Err(f) = w.settle() {
+        // (iii) bounded number of syncs; (i) again at every quiescent
+        // instant in between: a CA that just picked up a smaller certificate
+        // must not publish children's certificates beyond it until those
+        // children call in
+        let mut transient: Vec<String> = Vec::new();
+        let names_all: Vec<String> = w.krill.ca_manager().ca_handles().unwrap_or_default().iter().map(|h| h.to_string()).collect();
+        let settled = w.settle_observed(&mut |w2, _just_synced| {
+            for n in &names_all {
+                for p in own_publication_consistent(w2, n) {
+                    if !transient.contains(&p) {
+                        transient.push(p);
+                    }
+                }
+            }
+        });
+        if let Err(f) = settled {
             return vec![("fatal".into(), f)];
+        }
+        if !transient.is_empty() {
+            return transient.into_iter().map(|p| ("overclaim-published".to_string(), format!("during the refresh round: {p}"))).collect();
         }
         hdr.counters[0].fetch_add(1, Ordering::Relaxed);
         let (rrdp, _n) = match rp::view_from_rrdp(w) {
